@@ -6,6 +6,7 @@
 -/
 import MofunModel.Proofs.Code2Topo
 import MofunModel.Proofs.Code3Topo
+import MofunModel.Proofs.Code4Topo
 
 namespace Mofun.C10Code
 open Mofun Mofun.Generated Mofun.Code2Topo
@@ -105,5 +106,37 @@ theorem deleteTerms_extra (ts : List Term) (idx : List Nat) :
   simp [deleteTerms, List.map_map, Function.comp_def]
 
 example : Generated.Code.deleteAndReindex [[0, 1], [1, 2], [2, 3]] [1] = ([[1, 2]], [0, 1]) := by decide
+
+/-! ### the index set `__delitem__` hands to the term code (fourth batch; repair ee36d79) -/
+
+open Mofun.Code4Topo
+
+/-- for ALL index lists numpy accepts (every entry in `[-n, n)`): the translated
+    `sorted({i % num_atoms for i in indices}, reverse=True)` is the model's normalised index SET — negative indices
+    read from the end, repeats collapsed — sorted downwards (as `deleteTerms` sorts it) -/
+theorem delitemSortedIndices_eq (n : Nat) (idx : List Int) (h : ∀ i ∈ idx, (normIdx n i).isSome) :
+    Generated.Code.delitemSortedIndices n idx =
+      some ((sortDesc (dedup (idx.filterMap (normIdx n)))).map Int.ofNat) := by
+  unfold Generated.Code.delitemSortedIndices
+  try simp only []
+  rw [mapM_normIdx n idx h]
+  simp only [bind, pure, Option.bind_some, Option.bind_eq_bind, dedup_map_ofNat, sortedDesc_map_ofNat]
+
+/-- the model's `deleteNorm` deletes exactly the index set the translated line computes -/
+theorem deleteNorm_indices (a : Atoms) (idx : List Int) (h : ∀ i ∈ idx, (normIdx a.atoms.length i).isSome) :
+    ∃ L, Generated.Code.delitemSortedIndices a.atoms.length idx = some ((sortDesc L).map Int.ofNat) ∧
+      a.deleteNorm idx = a.delete L := by
+  refine ⟨dedup (idx.filterMap (normIdx a.atoms.length)), delitemSortedIndices_eq _ _ h, ?_⟩
+  unfold Atoms.deleteNorm
+  have : idx.any (fun i => (normIdx a.atoms.length i).isNone) = false := by
+    rw [List.any_eq_false]
+    intro i hi
+    have := h i hi
+    cases hn : normIdx a.atoms.length i <;> simp_all
+  simp [this]
+
+/-- `del a[[-1, 4, -1]]` on five atoms hands `[4]` to the term code, `del a[[-2, 0]]` hands `[3, 0]` -/
+example : Generated.Code.delitemSortedIndices 5 [-1, 4, -1] = some [4] := by decide
+example : Generated.Code.delitemSortedIndices 5 [-2, 0] = some [3, 0] := by decide
 
 end Mofun.C10Code
